@@ -54,7 +54,7 @@ impl PPTT {
     }
 
     pub fn new(oem_id: [u8; 6], oem_table_id: [u8; 8], oem_revision: u32) -> Self {
-        let header = TableHeader {
+        let mut header = TableHeader {
             signature: *b"PPTT",
             length: (TableHeader::len() as u32).into(),
             revision: 1,
@@ -68,6 +68,7 @@ impl PPTT {
 
         let mut cksum = Checksum::default();
         cksum.append(header.as_bytes());
+        header.checksum = cksum.value();
 
         Self {
             header,
